@@ -21,10 +21,22 @@ RULE = ("C01 polynomial arrays (int and dyadic float coefficients, 1-4 names inc
         "must load as plain arrays. non-trivial = >= 2 terms and >= 2 elements")
 
 
+# exponents whose storage key (chr(e + 59)) is not ASCII, counts as Unicode whitespace (74, 101, 5701, 8173, 8228), or is
+# the last one latin1 can carry (196)
+ODD_EXPONENTS = [69, 74, 100, 101, 133, 196, 5701, 8173, 8228]
+
+
 def P(rng, **kw):
     kw.setdefault("kind", gen.choice(rng, ["int", "float"], p=[.5, .5]))
     s = gen.gen_struct(rng, **kw)
     s["as"] = "poly_T" if len(s["shape"]) >= 2 and rng.random() < .15 else "poly"
+    if s["terms"] and rng.random() < .2:
+        t = s["terms"][int(rng.integers(len(s["terms"])))]
+        e = list(t[0])
+        e[int(rng.integers(len(e)))] = int(gen.choice(rng, ODD_EXPONENTS))
+        if e not in [u[0] for u in s["terms"]]:
+            t[0] = e
+            s["odd_exponent"] = max(e)
     return s
 
 
@@ -55,6 +67,10 @@ def run_copies(ctx, rng, n, monitor):
     for i in range(n):
         s = P(rng)
         p = gen.materialize(s, s["as"])
+        if i % 5 == 4:
+            # coefficients stored in non-native byte order (as read from big-endian data): part of the dtype
+            p = p.astype(numpy.dtype(p.dtype).newbyteorder(">"))
+            s = dict(s, byteorder=">")
         case = {"kind": "copy", "a": s}
         ways = [(f"pickle protocol {k}", (lambda k: lambda q: pickle.loads(pickle.dumps(q, protocol=k)))(k)) for k in range(6)]
         ways += [("copy.copy", copy.copy), ("copy.deepcopy", copy.deepcopy), (".copy()", lambda q: q.copy())]
@@ -135,6 +151,12 @@ def run_text(ctx, rng, n, monitor, tmp):
                     first = (raw if isinstance(raw, str) else raw.decode("latin1")).split("\n", 1)[0]
                     f.seek(offset)
                     r = numpoly.loadtxt(f, **load_kw)
+        except UnicodeEncodeError as err:
+            if target == "BytesIO" and s.get("odd_exponent", 0) > 196:
+                ctx.count("text.binary-cannot-carry-key")
+                continue
+            ctx.fail(case, f"text round trip raised {type(err).__name__}: {str(err)[:150]}", tags + [f"raises:{err_kind(err)}"])
+            continue
         except Exception as err:  # noqa: BLE001
             ctx.fail(case, f"text round trip raised {type(err).__name__}: {str(err)[:150]}", tags + [f"raises:{err_kind(err)}"])
             continue
@@ -156,7 +178,7 @@ def run_text(ctx, rng, n, monitor, tmp):
         if len(s["terms"]) >= 2 and int(numpy.prod(s["shape"], dtype=int)) >= 2:
             ctx.nontrivial_add(("text", i))
         # the header line against the Lean codec
-        m = re.search(r"names:(\S+) keys:(\S+) shape:(\S*)", first)
+        m = re.search(r"names:([^ ]+) keys:([^ ]+) shape:([\d,]*)", first)
         if m is None:
             ctx.fail(case, f"no numpoly header in the first line {first[:80]!r}", tags + ["header"])
             continue
@@ -228,6 +250,8 @@ def replay(ctx, case):
     with tempfile.TemporaryDirectory() as tmp:
         if case["kind"] == "copy":
             p = gen.materialize(case["a"], case["a"].get("as", "poly"))
+            if case["a"].get("byteorder"):
+                p = p.astype(numpy.dtype(p.dtype).newbyteorder(case["a"]["byteorder"]))
             k = int(case["how"].split()[-1]) if case["how"].startswith("pickle") else None
             if "oob" in case["how"]:
                 try:
